@@ -40,7 +40,18 @@
 (*         (launch only) and NOPE (nowhere): imported names the            *)
 (*         environment also defines / does not define, listed before /     *)
 (*         after the key that refers to them.                              *)
+(*   LD_LIBRARY_PATH  ''  an own key the environment deliberately clears;   *)
+(*         also a launch variable (and a search path variable)             *)
+(*   EMQ   ''  a cleared own key that is not a launch variable             *)
+(*   LIBS  a:${LD_LIBRARY_PATH}:b:$EMQ:c  refers to the cleared keys       *)
 (* The launch environment gives every referenced name a different value.   *)
+(* Empty values: a reference to an own key expands to the own value even   *)
+(* when that value is empty (own first, then launch).  What the code at    *)
+(* HEAD does with the OUTPUT is modelled as its legitimate behaviour: a    *)
+(* key whose value is empty before the expansion is not part of the        *)
+(* resulting environment (a value that only becomes empty by expansion is  *)
+(* kept); an interpreter component gets a search path variable of the      *)
+(* launch environment also when the environment had cleared it.            *)
 (*                                                                         *)
 (* Values are sequences of tokens: literal text tagged with its origin     *)
 (* (key, environment, index), a reference to a variable (plain or in       *)
@@ -64,8 +75,8 @@ VARIABLES plat, sel, spell, interp, present, keys,
 vars == <<plat, sel, spell, interp, present, keys, dl>>
 
 EnvIds == {"named@default", "named@p1", "pkg@default", "pkg@p1"}
-Keys   == {"BASE", "PATH", "CH", "DEFAULTS"}
-DefaultsNames == {"BASE", "PATH", "IMP", "NOPE"}
+Keys   == {"BASE", "PATH", "CH", "LD_LIBRARY_PATH", "EMQ", "LIBS", "DEFAULTS"}
+DefaultsNames == {"BASE", "PATH", "IMP", "NOPE", "LD_LIBRARY_PATH"}
 Allowed(e) == CASE e = "named@default" -> NamedD [] e = "named@p1" -> NamedP
                 [] e = "pkg@default" -> PkgD [] e = "pkg@p1" -> PkgP
 
@@ -83,6 +94,9 @@ N(n)       == [t |-> "name", n |-> n]
 ValueOf(k, e) == CASE k = "BASE" -> <<L(k, e, 1)>>                                                             \* literal
                    [] k = "PATH" -> <<L(k, e, 1), R("BASE", FALSE), L(k, e, 2), R("PATH", FALSE)>>             \* a:$BASE:b:$PATH
                    [] k = "CH"   -> <<L(k, e, 1), R("PATH", FALSE), R("LK", TRUE), L(k, e, 2), R("UNK", FALSE), R("UNK2", TRUE)>>
+                   [] k = "LD_LIBRARY_PATH" -> <<>>                                                            \* cleared; a launch variable
+                   [] k = "EMQ"  -> <<>>                                                                       \* cleared; not at launch
+                   [] k = "LIBS" -> <<L(k, e, 1), R("LD_LIBRARY_PATH", TRUE), L(k, e, 2), R("EMQ", FALSE), L(k, e, 3)>>
                    [] k = "DEFAULTS" -> [i \in 1..Len(dl[e]) |-> N(dl[e][i])]                                  \* names imported from launch
 
 LaunchKeys == {"PATH", "BASE", "LK", "IMP", "DECOY", "HOME", "PYTHONPATH", "LD_LIBRARY_PATH"}     \* NOPE, UNK, UNK2, CH: not at launch
@@ -138,7 +152,8 @@ Build(env0) ==
         e2  == TLCEval([k \in (DOMAIN e1 \cup imp) \ {"DEFAULTS"} |->
                    IF k \in imp THEN (IF k \in DOMAIN e1 THEN Subst(e1[k], [x \in {k} |-> Launch[k]]) ELSE Launch[k])
                                 ELSE e1[k]])
-        e3  == TLCEval([k \in DOMAIN e2 |-> Subst(e2[k], e2)])          \* first from the environment itself
+        (* keys that are empty at this point do not appear in the result, but references to them still expand to nothing *)
+        e3  == TLCEval([k \in {x \in DOMAIN e2 : Len(e2[x]) > 0} |-> Subst(e2[k], e2)])     \* first from the environment itself (all of it)
         e4  == TLCEval([k \in DOMAIN e3 |-> Subst(e3[k], Launch)])      \* then from the launch environment
         add == IF interp THEN (PathVars \cap DOMAIN Launch) \ DOMAIN e4 ELSE {}
     IN  Merge(TLCEval([k \in add |-> Launch[k]]), e4)
@@ -168,7 +183,7 @@ AddDefaults(e, d) == /\ e \in present /\ "DEFAULTS" \in Allowed(e) /\ "DEFAULTS"
 
 Next == \/ \E e \in {"named@default", "named@p1", "pkg@default", "pkg@p1"} : Create(e)
         \/ \E e \in {"named@default", "named@p1", "pkg@default", "pkg@p1"},
-              k \in {"BASE", "PATH", "CH"} : AddKey(e, k)
+              k \in {"BASE", "PATH", "CH", "LD_LIBRARY_PATH", "EMQ", "LIBS"} : AddKey(e, k)
         \/ \E e \in {"named@default", "named@p1", "pkg@default", "pkg@p1"}, d \in DLists : AddDefaults(e, d)
 
 Spec == Init /\ [][Next]_vars
@@ -212,6 +227,14 @@ OwnBeforeLaunchP(E, B) == (E.ok /\ B.n # "-" /\ "PATH" \in DeclaredP(B) /\ "BASE
                              /\ E.env["PATH"][2].t = "lit" /\ E.env["PATH"][2].k = "BASE" /\ E.env["PATH"][2].e # "launch"
                              /\ ("PATH" \in Imported(Merge(Sys, B.env))) => E.env["PATH"][4] = L("PATH", "launch", 1)
 
+(* a key the environment clears stays cleared: it is not in the result (unless it is a search path variable of an  *)
+(* interpreter component) and a reference to it never becomes the launch value                                     *)
+ClearedStaysClearedP(E, B) == (E.ok /\ B.n # "-") =>
+                                 /\ \A k \in DeclaredP(B) \cap {"LD_LIBRARY_PATH", "EMQ"} : k \in DOMAIN E.env => (interp /\ k \in PathVars)
+                                 /\ ("LIBS" \in DeclaredP(B) /\ "LD_LIBRARY_PATH" \in DeclaredP(B)) =>
+                                        \A i \in 1..Len(E.env["LIBS"]) : E.env["LIBS"][i].t = "lit" => E.env["LIBS"][i].e # "launch"
+ClearedStaysCleared == ClearedStaysClearedP(Expected, Base)
+
 (* environments that are not a source for this selection and platform (the other kind of environment, the other *)
 (* platform's environments) never matter: the result equals the one for the package without them                  *)
 RelevantIds == LET n == IF sel \in NamedSels THEN "named" ELSE IF sel \in DefaultSels THEN "pkg" ELSE "-"
@@ -221,7 +244,7 @@ ForeignIrrelevant == ForeignIrrelevantP(Expected, Base)
 
 AllPropsP(E, B) == /\ ErrorIffP(E, B) /\ NoLeakP(E, B) /\ NoneIsEmptyP(E, B) /\ SystemAlwaysP(E, B)
                    /\ NoForeignTextP(E, B) /\ PlatformOverDefaultP(E, B) /\ OwnBeforeLaunchP(E, B)
-                   /\ ForeignIrrelevantP(E, B)
+                   /\ ForeignIrrelevantP(E, B) /\ ClearedStaysClearedP(E, B)
 
 ErrorIff            == ErrorIffP(Expected, Base)
 NoLeak              == NoLeakP(Expected, Base)
